@@ -32,7 +32,9 @@ impl Delay {
         }
         let pre_ratio = if cfg.kind.is_async() && cfg.max_rel > 1.0 && rng.chance(0.3) { Some(gen_in_range_ratio(&mut rng, &cfg)) } else { None };
         let r = pre_ratio.unwrap_or(cfg.r());
-        let sigma = (4.0 / r.min(1.0)) * rng.uf(1.0, 3.0);
+        // the anti-aliasing table is built for the construction ratio and is not rebuilt by the ratio
+        // setters: the pulse must be smooth with respect to both
+        let sigma = (4.0 / r.min(1.0).min(if cfg.kind.is_sinc() { cfg.ratio } else { 1.0 })) * rng.uf(1.0, 3.0);
         let flen = if cfg.kind.is_fft() { cfg.fft_sizes().0 } else { cfg.flen() };
         let n0 = (6.0 * sigma + flen as f64 + 8.0 + rng.uf(0.0, 3000.0)).round();
         let clip_len = (n0 + 6.0 * sigma + 8.0).ceil() as usize; // the "clip" of the README recipe
